@@ -47,6 +47,12 @@ CHECKS = {
             "TLC decides latest/first/all/latest semantics, truncation at every limit class and the print format on the specification; the replay ties the "
             "real processFrame capture + Marshal + injector + backend header to the specification's value after every request of thousands of frame sequences.",
             "Sequential client (waits for each response); h2raw serializer trusted; quick tier covers a seeded sample of graph edges."),
+    'C20': ("WriteSched.tla (reference FIFOs + round-robin ring + RFC 7540 priority tree + Consume) checked exhaustively per scheduler; seeded random "
+            "operation histories recorded in-package from the real schedulers are validated by TLC as behaviours of the same actions (trace validation)",
+            "TLC decides exactly-once, per-stream order, control-first, window/frame-size limits, 'nothing to write only if nothing sendable' and tree-ness on the "
+            "design for all operation sequences in the bound; every recorded history (open/close/adjust/push/pop, windows down to 0, four priority configurations) "
+            "must be explainable step by step, with all invariants evaluated in every state.",
+            "Interface contract respected by the generator; order among ready streams not asserted for random/priority; trace acceptance uses a high-water mark (-workers 1)."),
 }
 
 NOT_YET = {}
